@@ -441,7 +441,7 @@ def x_is_thorough_only(P, oid):
 
 
 def replay(path):
-    rec = json.load(open(os.path.join(path, 'replay.json')))
+    rec = json.load(open(path if os.path.isfile(path) else os.path.join(path, 'replay.json')))
     rc = 0
     for item in rec['violations']:
         print('== obligation', item['obligation'])
@@ -472,7 +472,14 @@ def replay(path):
             cmd += ['--', item['playback_test']]
             r = subprocess.run(cmd, cwd=dst, env=env, capture_output=True, text=True)
             print(r.stdout[-3000:])
-            if r.returncode != 0:
+            # the verdict is that of the recorded test itself (cargo's exit status also reflects doc-test targets)
+            verdict = re.search(r'test \S*%s \.\.\. (ok|FAILED)' % re.escape(item['playback_test']), r.stdout)
+            failed = bool(verdict and verdict.group(1) == 'FAILED') or (verdict is None and r.returncode != 0 and 'panicked at' in (r.stdout + r.stderr))
+            if verdict is None and not failed and r.returncode != 0:
+                print('replay: could not run the recorded test (build problem?)')
+                print(r.stderr[-1500:])
+                rc = max(rc, 2)
+            elif failed:
                 print('replay: the recorded input still fails on the current tree')
                 rc = 1
             else:
